@@ -480,3 +480,209 @@ def at2(model):
     elif apps:
         r.ok(apps[0], 'extracted flows are recorded by append', nontrivial=True)
     return r
+
+
+# ----------------------------------------------------------------------------- MT7 / MT8 / TH4
+class _ClassSet:
+    """which token classes a list may contain: explicit names, plus 'anything' minus a set
+    of classes that a filter has removed"""
+    def __init__(self, names=(), anything=False, excluded=()):
+        self.names = frozenset(names)
+        self.anything = anything
+        self.excluded = frozenset(excluded)
+
+    def join(self, o):
+        if self.anything and o.anything:
+            return _ClassSet(self.names | o.names, True, self.excluded & o.excluded)
+        if self.anything:
+            return _ClassSet(self.names | o.names, True, self.excluded - o.names)
+        if o.anything:
+            return _ClassSet(self.names | o.names, True, o.excluded - self.names)
+        return _ClassSet(self.names | o.names)
+
+    def may_contain(self, cls):
+        return cls in self.names or (self.anything and cls not in self.excluded)
+
+    def __eq__(self, o):
+        return isinstance(o, _ClassSet) and (self.names, self.anything, self.excluded) == \
+            (o.names, o.anything, o.excluded)
+
+
+def mt8(model):
+    from ..flow import Flow
+    r = RuleResult('MT8', 'a maths section handed to the part detection contains no ActionToken / '
+                   'VoidToken (they would split a run of maths into several parts, each with its '
+                   'own placeholder): may-contain analysis of the list returned by '
+                   'expand_math_section', floor=1)
+    f = model.func('mathparser.MathParser.expand_math_section')
+    bad = ('ActionToken', 'VoidToken')
+
+    class CS(Flow):
+        def __init__(self):
+            super().__init__()
+            self.rets = []
+
+        def join(self, a, b):
+            out = {}
+            for k in set(a) | set(b):
+                if k in a and k in b:
+                    out[k] = a[k].join(b[k])
+                else:
+                    out[k] = a.get(k) or b.get(k)
+            return out
+
+        def ev(self, e, st):
+            if isinstance(e, ast.Name):
+                return st.get(e.id, _ClassSet(anything=True))
+            if isinstance(e, ast.List):
+                names = set()
+                anything = False
+                for x in e.elts:
+                    c = T.token_ctor(model, x) if isinstance(x, ast.Call) else None
+                    if c is not None:
+                        names.add(c.name)
+                    else:
+                        anything = True
+                return _ClassSet(names, anything)
+            if isinstance(e, ast.BinOp) and isinstance(e.op, ast.Add):
+                return self.ev(e.left, st).join(self.ev(e.right, st))
+            if isinstance(e, ast.ListComp) and len(e.generators) == 1:
+                g = e.generators[0]
+                src = self.ev(g.iter, st) if isinstance(e.elt, ast.Name) and isinstance(g.target, ast.Name) \
+                    and e.elt.id == g.target.id else _ClassSet(anything=True)
+                excl = set()
+                for c in g.ifs:
+                    if isinstance(c, ast.Compare) and isinstance(c.ops[0], ast.NotIn) \
+                            and isinstance(c.left, ast.Call) and getattr(c.left.func, 'id', '') == 'type' \
+                            and isinstance(c.comparators[0], (ast.Tuple, ast.List, ast.Set)):
+                        for x in c.comparators[0].elts:
+                            excl.add(x.attr if isinstance(x, ast.Attribute) else getattr(x, 'id', '?'))
+                    elif isinstance(c, ast.Compare) and isinstance(c.ops[0], ast.IsNot) \
+                            and isinstance(c.left, ast.Call) and getattr(c.left.func, 'id', '') == 'type':
+                        x = c.comparators[0]
+                        excl.add(x.attr if isinstance(x, ast.Attribute) else getattr(x, 'id', '?'))
+                return _ClassSet(src.names - excl, src.anything, src.excluded | excl)
+            if isinstance(e, ast.Call):
+                c = T.token_ctor(model, e)
+                if c is not None:
+                    return _ClassSet([c.name])
+                rc = model.resolve_call(e)
+                if rc and rc[0] == 'func' and rc[1].qname == 'utils.latex_error':
+                    return _ClassSet(['TextToken'])
+                return _ClassSet(anything=True)
+            return _ClassSet(anything=True)
+
+        def transfer(self, s, st):
+            if isinstance(s, ast.Assign) and len(s.targets) == 1:
+                t = s.targets[0]
+                if isinstance(t, ast.Name):
+                    st[t.id] = self.ev(s.value, st)
+                elif isinstance(t, ast.Tuple):
+                    for x in t.elts:
+                        if isinstance(x, ast.Name):
+                            st[x.id] = _ClassSet(anything=True)
+            elif isinstance(s, ast.AugAssign) and isinstance(s.target, ast.Name):
+                st[s.target.id] = st.get(s.target.id, _ClassSet()).join(self.ev(s.value, st))
+            elif isinstance(s, ast.Expr) and isinstance(s.value, ast.Call) \
+                    and isinstance(s.value.func, ast.Attribute) and isinstance(s.value.func.value, ast.Name):
+                v = s.value.func.value.id
+                if s.value.func.attr in ('append', 'insert') and s.value.args:
+                    a = s.value.args[-1]
+                    c = T.token_ctor(model, a) if isinstance(a, ast.Call) else None
+                    add = _ClassSet([c.name]) if c is not None else (
+                        st.get(a.id, _ClassSet(anything=True)) if isinstance(a, ast.Name) and False
+                        else _ClassSet(anything=True))
+                    # appending the current (already classified maths) token
+                    if isinstance(a, ast.Name) and guards_type(a, s):
+                        add = _ClassSet(guards_type(a, s))
+                    st[v] = st.get(v, _ClassSet()).join(add)
+                elif s.value.func.attr == 'extend' and s.value.args:
+                    st[v] = st.get(v, _ClassSet()).join(self.ev(s.value.args[0], st))
+            return st
+
+        def bind_for(self, s, st):
+            return st
+
+        def on_return(self, node, st):
+            if node is not None and node.value is not None:
+                v = node.value.elts[0] if isinstance(node.value, ast.Tuple) and node.value.elts else node.value
+                self.rets.append((node, self.ev(v, st)))
+
+    def guards_type(name, stmt):
+        """classes the token may have according to a dominating `type(tok) in (..)` test"""
+        from .. import guards as G
+        for e, t in G.facts(stmt):
+            if t and isinstance(e, ast.Compare) and isinstance(e.left, ast.Call) \
+                    and getattr(e.left.func, 'id', '') == 'type' and unparse(e.left.args[0]) == name.id:
+                c = e.comparators[0]
+                if isinstance(c, (ast.Tuple, ast.List)):
+                    return [x.attr if isinstance(x, ast.Attribute) else getattr(x, 'id', '?') for x in c.elts]
+                if isinstance(e.ops[0], ast.Is):
+                    return [c.attr if isinstance(c, ast.Attribute) else getattr(c, 'id', '?')]
+        return None
+    fl = CS()
+    fl.run(f.body, {})
+    if not fl.rets:
+        raise AnalysisError('anchor vanished: return of expand_math_section')
+    for node, cs in fl.rets:
+        leak = [c for c in bad if cs.may_contain(c)]
+        if leak:
+            r.fail(node, 'the maths section returned may still contain %s: a run of maths is split '
+                   'into several parts and gets several placeholders' % ' / '.join(leak),
+                   witness='\\begin{cases}..\\end{cases} followed by more maths in one section')
+        else:
+            r.ok(node, 'ActionToken and VoidToken are filtered out of everything that is returned',
+                 nontrivial=True)
+    return r
+
+
+def mt7(model):
+    r = RuleResult('MT7', '"has an element" means: some element token of the part is not a '
+                   'punctuation mark - the punctuation test is part of the search condition, so '
+                   'the search goes on behind a leading punctuation mark', floor=1)
+    f = model.func('mathparser.MathPartToken.has_elem')
+    gens = [n for n in ast.walk(f.node) if isinstance(n, (ast.GeneratorExp, ast.ListComp))]
+    punct_tests = [n for n in ast.walk(f.node) if isinstance(n, ast.Compare)
+                   and any(isinstance(x, ast.Attribute) and x.attr == 'math_punctuation' for x in ast.walk(n))]
+    if not punct_tests:
+        r.fail(f.node, 'has_elem no longer excludes punctuation marks', stmt='has_elem punctuation')
+        return r
+    in_gen = [t for t in punct_tests if any(t in list(ast.walk(c)) for g in gens for gg in g.generators for c in gg.ifs)]
+    loops = [n for n in ast.walk(f.node) if isinstance(n, (ast.For, ast.While))]
+    if in_gen or loops:
+        r.ok(f.node, 'the punctuation test is part of the search over all tokens of the part',
+             nontrivial=True)
+    else:
+        r.fail(punct_tests[0], 'the punctuation test is applied to the first element token only: a '
+               'part that starts with a punctuation mark gets no placeholder',
+               witness='\\text{ otherwise}, \\quad x \\in M.')
+    return r
+
+
+def th4(model):
+    r = RuleResult('TH4', 'HTML regions: a new region is opened only if the entry starts at or '
+                   'behind the end of EVERY entry of the last region (an aggregate over the region, '
+                   'not its last member: ends are not monotonic)', floor=1)
+    f = model.func('shell.genhtml.generate_html')
+    loops = [s for s in f.node.body if isinstance(s, ast.For)]
+    if len(loops) < 2:
+        raise AnalysisError('anchor vanished: grouping loop of generate_html')
+    grp = loops[1]
+    ifs = [s for s in grp.body if isinstance(s, ast.If)]
+    for s in ifs:
+        t = s.test
+        agg = [n for n in ast.walk(t) if isinstance(n, ast.Call) and getattr(n.func, 'id', '') in ('max', 'all', 'any')
+               and n.args and isinstance(n.args[0], (ast.GeneratorExp, ast.ListComp))]
+        single = [n for n in ast.walk(t) if isinstance(n, ast.Subscript) and isinstance(n.value, ast.Subscript)
+                  and isinstance(n.slice, (ast.Constant, ast.UnaryOp))]
+        if agg:
+            r.ok(s, 'the test aggregates over all entries of the last region', nontrivial=True)
+        elif single:
+            r.fail(s, 'a new region is opened by comparing with one member (%s) of the last region '
+                   'only: a line still covered by an earlier, longer match is shown twice'
+                   % unparse(single[0]),
+                   witness='a long multi-line match, a short one inside it, and a later match on '
+                           'a line the long one still covers')
+        else:
+            r.undec(s, 'region test not recognised')
+    return r
